@@ -313,7 +313,8 @@ fn addr() -> impl Strategy<Value = Addr> {
 }
 
 fn case(max_addrs: usize) -> impl Strategy<Value = Case> {
-    let n = prop_oneof![6 => 0..=8usize, 3 => 25..=max_addrs, 1 => 0..=max_addrs];
+    let big = if max_addrs >= 25 { 25..=max_addrs } else { 0..=max_addrs };
+    let n = prop_oneof![6 => 0..=8usize.min(max_addrs), 3 => big, 1 => 0..=max_addrs];
     (0u8..10, any::<u16>(), prop_oneof![Just(0u32), Just(1u32), Just(360_000u32), any::<u32>()], n.prop_flat_map(|n| proptest::collection::vec(addr(), n)))
         .prop_map(|(peer, query_id, ttl_ms, addrs)| Case { peer, query_id, ttl_ms, addrs })
 }
